@@ -107,6 +107,7 @@ class HashFileDB(ObjectDB):
             on_error=lambda o, exc: errors.append((o, exc)),
             **kwargs,
         )
+        failed: set[str] = set()
         for o, exc in errors:
             # NOTE: another writer may have added (and write-protected) the
             # object after we have checked for it, in which case linking or
@@ -116,9 +117,12 @@ class HashFileDB(ObjectDB):
                 continue
             if on_error is None:
                 raise exc
+            failed.add(o)
             on_error(o, exc)
 
-        oid_cache_paths = {o: self.oid_to_path(o) for o in oids}
+        # NOTE: whatever sits at the path of an object that could not be added
+        # is not ours to protect or to vouch for.
+        oid_cache_paths = {o: self.oid_to_path(o) for o in oids if o not in failed}
         for o, cache_path in oid_cache_paths.items():
             try:
                 if verify:
